@@ -74,6 +74,10 @@ CLAIMED["C16"] = ("table extraction by abstract interpretation of the normaliser
     "Complete for the normaliser clause: one push per character, identity default, idempotent 1:1 table (all 96+ entries derived from MIR). "
     "Structural decision of the token-stream pipeline, offsets from the original text, advance() forms, the letter tables of tantivy/predict/evaluate/kytea "
     "and the copy sites. One open known finding (NUL in tantivy input).", "DESIGN.md §4 C16")
+CLAIMED["C19"] = ("frame analysis (written/read sets), finite decision of the constructor gate, compile-fail witness, tool codec/order/error-discipline rules",
+    "Complete decision of the frame clause of replace_dictionary/dictionary and of the constructor gate (Ok iff length equality; private fields; tool uses new); "
+    "structural decision of the dump/replace codec agreement (same flatten type, separator, i32) and tool order; every Result propagated. "
+    "csv quoting and byte identity are not decided.", "DESIGN.md §4 C19")
 NOT_YET = {}
 
 def main():
